@@ -42,7 +42,7 @@ Definition leaf_local (t : tok) : bool := track_local t || match t with TLineNo 
 Ltac song_cbn :=
   cbv beta iota delta [lnorm s_tracks s_cur s_timebase s_key_flag s_key_shift s_use_key_shift s_v_add s_q_add s_harmony_flag s_harmony_time
        s_harmony_events s_octave_once s_break_flag s_tempo s_timesig_frac s_timesig_deno s_measure_shift s_play_from s_lineno
-       s_logs s_vars s_rhythm s_rand_seed
+       s_logs s_vars s_rhythm s_rand_seed s_device s_set_device
        s_set_adds s_set_break_flag s_set_cur s_set_harmony s_set_harmony_events s_set_harmony_flag s_set_harmony_time
        s_set_key_flag s_set_key_shift s_set_lineno s_set_logs s_set_measure_shift s_set_octave_once s_set_play_from s_set_q_add
        s_set_rand_seed s_set_rhythm s_set_tempo s_set_time s_set_timebase s_set_timesig_deno s_set_timesig_frac s_set_tracks
@@ -87,7 +87,9 @@ Proof.
                   | |- context [if ?b then _ else _] => destruct b
                   | |- context [match ?a with [] => _ | _ => _ end] => destruct a as [|a0 [|a1 ar]]
                   end; reflexivity]
-  | solve [unfold lnorm_res, exec_voice; destruct args as [|x [|y r]]; destruct s as [a1 a2 a3 a4 a5 a6 a7 a8 a9 a10 a11 a12 a13 a14 a15 a16 a17 a18 a19 a20 a21 a22 a23]; song_cbn; reflexivity] ].
+  | solve [unfold lnorm_res, exec_voice; destruct args as [|x [|y r]]; destruct s as [a1 a2 a3 a4 a5 a6 a7 a8 a9 a10 a11 a12 a13 a14 a15 a16 a17 a18 a19 a20 a21 a22 a23]; song_cbn; reflexivity]
+  | solve [unfold lnorm, lnorm_res, exec_gs_effect, add_events; destruct s as [a1 a2 a3 a4 a5 a6 a7 a8 a9 a10 a11 a12 a13 a14 a15 a16 a17 a18 a19 a20 a21 a22 a23 a24]; song_cbn;
+           match goal with |- context [Cmd.cmd_gs_effect ?a ?b ?c ?d ?e] => destruct (Cmd.cmd_gs_effect a b c d e) end; reflexivity] ].
 Qed.
 
 (* the three facts of TrackIndepP for the leaves of a block (a line-number token touches no track and no register but the
